@@ -94,7 +94,7 @@ def tla_workspace(*modules_dirs):
 
 
 def run_tlc(ws, module, cfg=None, *, workers=None, simulate=None, depth=None, seed=None,
-            env=None, timeout=1800, extra=(), xss='1g', heap=None, coverage=False, cont=False,
+            env=None, timeout=1800, extra=(), xss='1g', heap='6g', coverage=False, cont=False,
             allow_violation=False, budget=None):
     """budget (seconds): an exhaustive run that is allowed not to finish -- when the budget is used up TLC is stopped and the
     result (complete=False) covers the states explored so far (no violation among them)."""
